@@ -248,6 +248,8 @@ func crashAssert(r *core.Report, cs *crashScope, table map[string]assertExcuse) 
 					key := fmt.Sprintf("assert:%s#%d(%s)", name, perFn[name], types.TypeString(ta.AssertedType, func(*types.Package) string { return "" }))
 					if why := assertDischarged(ta); why != "" {
 						r.OK(key, p.Pos(ta.Pos()), why)
+					} else if why := poolAssert(p, fn, ta); why != "" {
+						r.OK(key, p.Pos(ta.Pos()), why)
 					} else if ex, ok := table[name]; ok {
 						if bad := ex.verify(); bad != "" {
 							r.Bad(key, p.Pos(ta.Pos()), "unchecked type assertion whose justification no longer holds: "+bad)
@@ -264,6 +266,28 @@ func crashAssert(r *core.Report, cs *crashScope, table map[string]assertExcuse) 
 			r.Trivial("assert:none", "-", "no unchecked assertion")
 		}
 	})
+}
+
+// poolAssert: `pool.Get().(*T)` on a package-level sync.Pool that only ever holds *T.
+func poolAssert(p *core.Prog, fn *ssa.Function, ta *ssa.TypeAssert) string {
+	syn, _, info := declOfSSA(p, fn)
+	if syn == nil {
+		return ""
+	}
+	why := ""
+	ast.Inspect(syn, func(n ast.Node) bool {
+		x, ok := n.(*ast.TypeAssertExpr)
+		if !ok || x.Lparen != ta.Pos() || x.Type == nil {
+			return true
+		}
+		if c, ok := ast.Unparen(x.X).(*ast.CallExpr); ok {
+			if el := p.PoolElem(info, c); el != nil && types.Identical(el, info.TypeOf(x.Type)) {
+				why = "operand is Get() of a package-level sync.Pool whose New returns and whose Put calls only take this type"
+			}
+		}
+		return false
+	})
+	return why
 }
 
 func assertDischarged(ta *ssa.TypeAssert) string {
